@@ -37,11 +37,15 @@ C["C18"] = ("SendAccountDebitRequest and SendServiceUsageRequest leave the ghost
 C["C20"] = ("A predicate derived mechanically from the valid:\"...\" struct tags in the current source (required pointers non-nil recursively) is assumed after a successful Config.Validate; under it InitChfContext and both Diameter clients are proved free of nil dereferences; Configuration.validate is proved to reject an unknown service name.",
                "Assumed: govalidator enforces 'required' on nested structs. Not covered: scheme check (runs inside govalidator via TagMap), the server start-up functions that spawn goroutines (rf/abmf OpenServer, SBI server).")
 
+C["C13"] = ("For any list of enabled services, every route is registered ('route' obligation at each GET/POST/PUT/PATCH/DELETE in applyRoutes/newRouter) on a router group on which the authorisation middleware has already been installed - recognised at the Use call site as a function literal that calls (*RouterAuthorizationCheck).Check on its own gin context; nothing is registered on the engine itself or on a sub-group created before Use. The middleware (Check) answers 401 and aborts the chain for every rejected token and writes nothing otherwise; (*CHFContext).AuthorizationCheck hands the token to oauth.VerifyOAuth and returns its verdict unchanged whenever OAuth2Required is set.",
+               "Assumed gin semantics: middleware installed with Use runs before handlers registered afterwards on that group, Group() inherits; Abort stops the chain. Assumed: oauth.VerifyOAuth rejects missing/malformed/wrongly signed tokens; ServerChf.Config() returns the validated configuration. How OAuth2Required follows the NRF's declaration is not under contract.")
+
+C["C17"] = ("Second sentence of the property, as the precondition of the assumed Marshal/Unmarshal contracts: for the static message type at each of the 8 Marshal/Unmarshal call sites (clients and servers), every avp:\"Name\" struct tag reachable through grouped members is defined in the dictionaries the process loads (go-diameter defaults, RateDictionary, AbmfDictionary - read from the current source on every run), all its definitions agree on code and data type, no other AVP name shares its (code, vendor), the member's go-diameter data type matches the dictionary type (octet-string types count as one wire class), and no two members of a struct carry the same tag. These 'avp' obligations are decided by evaluation inside the generator, not by the SMT solvers.",
+               "First sentence (every value received exactly as sent over the AVP's full range) is go-diameter's reflection-based codec: an assumed contract, not verified. Members of CHF-defined enum types are not type-checked. Known finding kept open: Vendor-Specific-Application-Id has codes 260 and 7027.")
+
 NA = {
  "C01": "The contracts are in place (ghost account balance and tariff on the Diameter clients, a bounded reservation-step lemma), but its two conservation clauses are not decided by the installed solvers within the time limits (450 KB VC, undecided after 300 s); an undecided obligation is not a proof, so the property is not claimed. History-long conservation is outside per-function contracts.",
  "C06": "Same lemma as C01 (not decided). Reading the code while writing it: the granted volume is min(AllowedUnits, requested) with MonetaryQuota = requested x unit cost, so the grant does not depend on what the account-balance server actually reserved; this is recorded in DESIGN.md as observed-not-decided, not as a finding, because no check of ours decides it.",
- "C13": "Route registration is data handed to gin (external router); deciding that every route of every service list sits behind the OAuth middleware needs a model of gin's group/middleware semantics, not a contract on CHF functions. Not applicable to this technique.",
- "C17": "AVP names, codes and types are matched at run time by go-diameter through reflection over struct tags against XML dictionaries; the property is about data (dictionary text vs. tags), decided by evaluation, not by pre/post-conditions on CHF functions.",
  "C19": "Matching late answers to requests is a timing/ordering property of channels and goroutines (select with time.After, per-subscriber channel shared across requests); govc models sequential code only.",
 }
 
